@@ -283,13 +283,18 @@ fn compile_inputs(tx: &tir::Tx) -> Result<Vec<primitives::TransactionInput>, Err
         .iter()
         .flat_map(|x| coercion::expr_into_utxo_refs(&x.utxos))
         .flatten()
-        .map(|x| primitives::TransactionInput {
-            transaction_id: x.txid.as_slice().into(),
-            index: x.index as u64,
-        })
-        .collect();
+        .map(|x| utxo_ref_into_input(&x))
+        .collect::<Result<Vec<_>, _>>()?;
 
     Ok(refs)
+}
+
+// a transaction id is exactly 32 bytes, anything else can't name a utxo
+fn utxo_ref_into_input(x: &UtxoRef) -> Result<primitives::TransactionInput, Error> {
+    Ok(primitives::TransactionInput {
+        transaction_id: coercion::bytes_into_hash(x.txid.as_slice())?,
+        index: x.index as u64,
+    })
 }
 
 fn output_has_assets(output: &Result<primitives::TransactionOutput<'static>, Error>) -> bool {
@@ -462,27 +467,21 @@ fn compile_reference_inputs(tx: &tir::Tx) -> Result<Vec<primitives::TransactionI
         .iter()
         .flat_map(coercion::expr_into_utxo_refs)
         .flatten()
-        .map(|x| primitives::TransactionInput {
-            transaction_id: x.txid.as_slice().into(),
-            index: x.index as u64,
-        })
-        .collect();
+        .map(|x| utxo_ref_into_input(&x))
+        .collect::<Result<Vec<_>, _>>()?;
 
     Ok(refs)
 }
 
 fn compile_collateral(tx: &tir::Tx) -> Result<Vec<TransactionInput>, Error> {
-    Ok(tx
+    tx
         .collateral
         .iter()
         .filter_map(|collateral| collateral.utxos.as_option())
         .flat_map(coercion::expr_into_utxo_refs)
         .flatten()
-        .map(|x| primitives::TransactionInput {
-            transaction_id: x.txid.as_slice().into(),
-            index: x.index as u64,
-        })
-        .collect())
+        .map(|x| utxo_ref_into_input(&x))
+        .collect::<Result<Vec<_>, _>>()
 }
 
 fn compile_required_signers(tx: &tir::Tx) -> Result<Option<primitives::RequiredSigners>, Error> {
